@@ -33,6 +33,11 @@ NodeOk(inp, n, o) ==
   /\ o.display = Plain(<<n>>)
   /\ o.debug = Tagged(<<n>>)
 
+\* a clone of the iterator is the same iterator (same length); stepping a clone past the end - nth / nth_back with the
+\* number of items left - yields nothing and leaves it empty, while nth / nth_back of the last item yields something
+SideOk(st, n) == /\ st.side.clen = n /\ st.side.chint = <<n, n>>
+                 /\ st.side.over = <<0, 0>> /\ st.side.over_none
+
 RunOk(f, run) ==
   LET L == CASE run.kind = "pairs" -> Items(f)
              [] run.kind = "flat"  -> Items(Flat(f))
@@ -42,11 +47,13 @@ RunOk(f, run) ==
   IN /\ run.panic = ""
      /\ Len(run.steps) = Len(ops) + 1
      /\ run.steps[1].len = Len(L) /\ run.steps[1].hint = <<Len(L), Len(L)>>
+     /\ SideOk(run.steps[1], Len(L))
      /\ (run.kind = "pairs" => run.steps[1].peek = (IF L = <<>> THEN <<>> ELSE <<L[1]>>))
      /\ \A i \in 1..Len(ops) :
           LET st == run.steps[i + 1] IN
           /\ st.ret = exp[i].ret
           /\ st.len = exp[i].len /\ st.hint = <<exp[i].len, exp[i].len>>
+          /\ SideOk(st, exp[i].len)
           /\ (run.kind = "pairs" => st.peek = exp[i].front)
 
 TopOk(inp, f, o) ==
